@@ -124,7 +124,23 @@ def penalty_run(prog, regs, dcfg, icfg):
                     steps, st.performance_metrics.cycles - c0, dm, im, 1 + pen_d * dm + pen_i * im)
                 break
     except InstructionExecutionException:
-        pass
+        return bad, st
+    if bad is None and b.is_done():
+        # the caches change WHEN cycles are charged, not the schedule: the run ends after as many steps as the uncached run,
+        # and the cycle total is the uncached total plus the charged penalties
+        u = make_sim(prog, regs, "five_stage_pipeline", True)
+        usteps = 0
+        try:
+            while not u.is_done() and usteps < 400:
+                u.step()
+                usteps += 1
+        except InstructionExecutionException:
+            return bad, st
+        dm = st.memory.accesses - st.memory.hits
+        im = (st.instruction_memory.accesses - st.instruction_memory.hits) if ic is not None else 0
+        if u.is_done() and (steps != usteps or st.performance_metrics.cycles != u.state.performance_metrics.cycles + pen_d * dm + pen_i * im):
+            bad = "the run with caches took %d steps / %d cycles; the uncached run %d steps / %d cycles, and %d data + %d instruction misses were charged %d cycles" % (
+                steps, st.performance_metrics.cycles, usteps, u.state.performance_metrics.cycles, dm, im, pen_d * dm + pen_i * im)
     return bad, st
 
 
@@ -169,7 +185,7 @@ def run_c07(tier, seed):
         regs = initial_regs(rnd)
         pen_d, pen_i = rnd.choice([1, 2, 5]), rnd.choice([0, 3])
         d = CacheOptions(True, rnd.randint(0, 1), rnd.randint(0, 1), rnd.choice([1, 2]), rnd.choice(["wb", "wt"]), rnd.choice(["lru", "plru"]), pen_d)
-        ic = CacheOptions(True, rnd.randint(0, 1), rnd.randint(0, 1), rnd.choice([1, 2]), "wb", "lru", pen_i) if rnd.random() < 0.5 else None
+        ic = CacheOptions(True, rnd.randint(0, 1), rnd.choice([0, 1, 2, 3]), rnd.choice([1, 2]), "wb", "lru", pen_i) if rnd.random() < 0.5 else None
         dcfg = [d.num_index_bits, d.num_block_bits, d.associativity, d.cache_type, d.replacement_strategy, pen_d]
         icfg = [ic.num_index_bits, ic.num_block_bits, ic.associativity, "wb", "lru", pen_i] if ic is not None else None
         bad, st = penalty_run(prog, regs, dcfg, icfg)
